@@ -138,6 +138,13 @@ def run_history(ctx, net, seq, fresh, variant):
                 g = held[0] - 1
             body = ofxserver.profile_ok(dt_text(g), URL + "/svc", URL, finame=f"G{g}", extra="x" * ((len(sent) * 37 + variant * 11) % 90),
                                         v1=(len(sent) + variant) % 2 == 1, pretty=(len(sent) + variant) % 3 == 0)
+            # the sign-on response may carry a DTPROFUP of its own (when the FI last changed its profile): it says nothing about
+            # the profile IN this answer - a server that hands out an older copy may well report a recent date there, and vice versa
+            k3 = (len(sent) + variant) % 3
+            if k3:
+                claim = dt_text(state["gen"] + 7 if k3 == 1 else max(g - 5, 0))
+                body = body.replace(b"</LANGUAGE></SONRS>", b"</LANGUAGE><DTPROFUP>" + claim.encode() + b"</DTPROFUP></SONRS>", 1)
+                ctx.count("seq_answers_with_signon_dtprofup")
             sent.append((g, body))
             step_rec["sent"] = (g, body)
             return Reply(body)
